@@ -63,6 +63,7 @@ pub fn run_fork(sim: &mut Sim, kind: &str, seed: u64, idx: usize, out: &mut Vec<
         "c11_matrix" => c11_matrix(sim, &mut rng, idx, out),
         "c11_transparency" => c11_transparency(sim, &mut rng, idx, out),
         "c15_split" => c15_split(sim, &mut rng, idx, out),
+        "c15_relational" => c15_relational(sim, &mut rng, idx, out),
         _ => sim.harness_error = Some(format!("unknown fork kind {}", kind)),
     }
 }
@@ -792,4 +793,70 @@ fn c15_split(sim: &mut Sim, rng: &mut Rng, idx: usize, out: &mut Vec<Violation>)
     }
     absorb(sim, a, idx, out);
     absorb(sim, b, idx, out);
+}
+
+// ------------------------------------------------------------ C15 relational
+
+fn exact_of(s: &Sim, who: &str) -> cosmwasm_std::Uint256 {
+    s.obs.reward.as_ref().map(|r| r.holders.iter().filter(|h| h.address == who).fold(cosmwasm_std::Uint256::zero(), |z, h| z + crate::monitors::reward::exact_accrued(h, r.state.global_index.atomics().u128()))).unwrap_or_default()
+}
+
+/// Pairs of histories that differ only in other holders' operations (bystanders) or in the
+/// order of two independent operations between the same two index updates: the observed
+/// holder's accrual is identical.
+fn c15_relational(sim: &mut Sim, rng: &mut Rng, idx: usize, out: &mut Vec<Violation>) {
+    if sim.obs.hub.as_ref().map(|h| h.params.paused.unwrap_or(false)).unwrap_or(true) || sim.w.ext.swap_mode != SwapMode::Ok || sim.w.ext.oracle_mode != OracleMode::Ok {
+        return;
+    }
+    let holders: Vec<(String, u128)> = sim.obs.t(Tok::B).map(|t| t.bal.iter().filter(|(a, b)| a.starts_with("user") && **b > 0).map(|(a, b)| (a.clone(), *b)).collect()).unwrap_or_default();
+    if holders.len() < 3 {
+        return;
+    }
+    let dels = sim.w.delegations_of(HUB);
+    if dels.is_empty() {
+        return;
+    }
+    sim.stats.check("c15_relational_fork");
+    let observed = holders[0].0.clone();
+    let (o1, b1) = holders[1].clone();
+    let (o2, b2) = holders[2].clone();
+    // operations of the other two holders that leave the total bSei balance unchanged
+    let op_a = Op::Transfer { tok: Tok::B, from: o1.clone(), to: o2.clone(), amount: rng.range128(1, b1).into() };
+    let op_b = if rng.chance(1, 2) { Op::Claim { user: o2.clone(), recipient: None } } else { Op::Transfer { tok: Tok::B, from: o2.clone(), to: "bystander".into(), amount: rng.range128(1, b2).into() } };
+    let v = rng.pick(&dels).0.clone();
+    let amt = rng.log_uniform(1_000_000_000).max(1);
+    let deliver = |s: &mut Sim| {
+        s.apply(&Step::Env(EnvEv::Reward { validator: v.clone(), denom: REWARD_DENOM.into(), amount: amt.into() }));
+        s.apply(&Step::Env(EnvEv::Reward { validator: v.clone(), denom: DENOM.into(), amount: amt.into() }));
+        s.apply(&tx_step(Op::UpdateIndex { sender: UPDATER.into() }));
+    };
+    // fork 0: nothing in between; fork 1: a then b; fork 2: b then a
+    let mut res = vec![];
+    for variant in 0..3 {
+        let mut c = child_of(sim);
+        deliver(&mut c);
+        match variant {
+            1 => {
+                c.apply(&tx_step(op_a.clone()));
+                c.apply(&tx_step(op_b.clone()));
+            }
+            2 => {
+                c.apply(&tx_step(op_b.clone()));
+                c.apply(&tx_step(op_a.clone()));
+            }
+            _ => {}
+        }
+        deliver(&mut c);
+        let all: BTreeMap<String, cosmwasm_std::Uint256> = c.obs.reward.as_ref().map(|r| r.holders.iter().map(|h| (h.address.clone(), exact_of(&c, &h.address))).collect()).unwrap_or_default();
+        res.push((exact_of(&c, &observed), all));
+        absorb(sim, c, idx, out);
+    }
+    if res[0].0 != res[1].0 || res[0].0 != res[2].0 {
+        viol(out, "C15", "accrual_independent_of_bystanders", idx, "reward:bystanders_change_accrual", format!("{} accrues {}e-18 alone, {}e-18 / {}e-18 when {} and {} transact in between", observed, res[0].0, res[1].0, res[2].0, o1, o2));
+    }
+    // commuting reorder: a;b versus b;a (when both orders executed the same set of operations)
+    if res[1].1 != res[2].1 {
+        // a claim in op_b commutes with a transfer *to* the claimer only in the exact view; compare that view
+        viol(out, "C15", "accrual_independent_of_operation_order", idx, "reward:order_changes_accrual", format!("swapping two independent operations of {} and {} between two index updates changed some holder's accrual", o1, o2));
+    }
 }
